@@ -14,6 +14,11 @@
 (* (what a conforming XML parser reports) together with `wire': every      *)
 (* string as it is written into the file (XmlEnc of the original).         *)
 (* Strings are byte strings (ReportStr).                                   *)
+(* A group / name filter may keep tests from running (Skip): the report of *)
+(* a group is about the tests that ran.  The registry reports start and    *)
+(* end also for a group none of whose tests ran (EmptyGroupEnded): nothing *)
+(* is asked for such a group, but what is written for it must not replace  *)
+(* the report of a group that ran (NoOverwrite, LastContentFaithful).      *)
 (***************************************************************************)
 EXTENDS Naturals, Integers, Sequences, FiniteSets, TLC, ReportStr
 
